@@ -52,3 +52,27 @@ META.update({
              level='Only the clauses visible in the code shape are decided (see DESIGN 5/C13); the core value-level claim (exact values for all printable text) is NOT decided by this technique.',
              note=_N + 'exact parsed values (unquote strips quotes, multi-line values gain a leading newline).'),
 })
+
+META.update({
+ 'C14': dict(technique='path enumeration over the full option product (key kind x version x detach x single-hop x auth) of _add_ephemeral_service: flags sent vs requested, key custody stores, command shape; dominance of the CR/LF guard',
+             level=_L + 'All 64 option combinations are enumerated through the tests the code applies; the command is shown to be built from "ADD_ONION <key>" by appends only.',
+             note=_N + 'port-string formatting over all port forms (_validate_ports).'),
+ 'C15': dict(technique='guard agreement across the legs of the HS_DESC handler + CFG with exception edges at yields (subscription removed on both continuations) + dominance (wait armed before the creating command)',
+             level=_L + 'Each event is one call of the handler and the obligations are per leg, so every ordering of UPLOAD/UPLOADED/FAILED for own and foreign services is covered structurally.',
+             note=_N + 'progress values. Known finding: the UPLOADED leg is not keyed on the service address (pinned by the tests).'),
+ 'C16': dict(technique='writer/resetter set agreement + reuse-hygiene rule for re-used Router objects + FSM table x line classes against dir-spec order (matcher ASTs interpreted on class representatives) + inverse-codec shape',
+             level=_L + 'A document is "reset + one _create_router per entry", so a per-document post-condition is inductive over document sequences; the parser table is compared class-by-class with r a* s [w] [p].',
+             note=_N + 'field values, nickname uniqueness semantics inside Tor.'),
+ 'C17': dict(technique='constant folding of the listener description + sibling agreement of the four create() legs + release-on-failure on the CFG with exception edges + refuse-before-start ordering',
+             level=_L + 'Every yield after the local bind is a failure point with an exception edge; each must reach the exit only through stopListening.',
+             note=_N + 'that Twisted binds what the endpoint string says.'),
+ 'C18': dict(technique='integrity (identity-preserving) flow from the GETCONF answer to the SETCONF arguments by reaching definitions + loop-shape rule for the fallback ports + sibling agreement of port matching',
+             level=_L + 'The flow is per element and the content is never inspected except for the first token, so the check covers all existing SOCKSPort lists.',
+             note=_N + 'connect outcomes themselves.'),
+ 'C19': dict(technique='guard-and-latch shape of the launch notifier + who-may-call + dominance (success under PROGRESS=100 after post_bootstrap, timeout cancelled) + path enumeration of timeout/exit handlers + guarded deletion registration',
+             level=_L + 'Every ordering of {100%, exit, timeout, connect failure} ends in the same guard-and-latch function, so at-most-once follows from its shape and from nobody else firing the waiters.',
+             note=_N + 'orderings of reactor events, Tor honouring TAKEOWNERSHIP.'),
+ 'C20': dict(technique='local type inference (timedelta) for scheduler delays + insert/remove key agreement + path enumeration over (pending timer x new mapping kind) for timer discipline',
+             level=_L + 'Each ADDRMAP line is one update() call; its effect on the pending timer and on the key set is decided by the tests the code applies.',
+             note=_N + 'clock arithmetic, local-time vs UTC forms.'),
+})
